@@ -54,6 +54,17 @@ def _build(e, rich_bounds):
     return s, spans, ws
 
 
+def _names(tags):
+    """attribute names switched on by a list of span styles (names, or Style objects on the spaces that 'full' inserts)"""
+    on = set()
+    for t in tags:
+        if isinstance(t, str):
+            on.add(t)
+        else:
+            on |= {a for a in STYLES if getattr(t, a)}
+    return [a for a in STYLES if a in on]
+
+
 def _mk(ji, oi, tiers, timeout, wmax):
     justify, overflow = JUSTIFY[ji], OVERFLOW[oi]
 
@@ -63,7 +74,7 @@ def _mk(ji, oi, tiers, timeout, wmax):
                  "overlapping / nested / empty) plus an optional duplicate (same range, or equal to the tail of the first span with the same style); "
                  "width 2..%d; no_wrap on/off; justify=%s overflow=%s (solver-enumerated, native): fold never drops, duplicates or "
                  "reorders a non-whitespace character; every produced line fits; every output character keeps its ordered span "
-                 "styles; a word is split only when it (with the indentation before it) is wider than the width"
+                 "styles, in the lines returned by wrap() and in the segments the console renders for the same Text; a word is split only when it (with the indentation before it) is wider than the width"
                  % (TRIPLES, SEP_PAIRS, LEAD, wmax, justify, overflow),
           outside="more than three words; widths above %d; spans off the grid" % wmax,
           stubs=["span styles compared as ordered lists per character (A2)"])
@@ -73,7 +84,7 @@ def _mk(ji, oi, tiers, timeout, wmax):
         no_wrap = bool(e.mkbool("no_wrap"))
         text = Text(s, spans=list(spans))
         in_tags = _tags(text)
-        c = cat.console()
+        c = cat.console(tab_size=4)
         lines = text.wrap(c, width, justify=justify, overflow=overflow, tab_size=4, no_wrap=no_wrap)
         src = [(ch, in_tags[i]) for i, ch in enumerate(s) if not ch.isspace()]
         out = []
@@ -101,6 +112,20 @@ def _mk(ji, oi, tiers, timeout, wmax):
                         break
                 else:
                     return False
+        # what is finally written: the wrapped lines joined and rendered by the console carry the same per-character styles
+        text2 = Text(s, spans=list(spans), justify=justify, overflow=overflow, no_wrap=no_wrap, tab_size=4)
+        rendered = []
+        for seg in c.render(text2, c.options.update(width=width)):
+            st = seg.style
+            tags = [t for t in STYLES if st is not None and getattr(st, t)]
+            rendered += [(ch, tags) for ch in seg.text]
+        want_r = []
+        for line in lines:
+            lt = _tags(line)
+            want_r += [(ch, _names(lt[i])) for i, ch in enumerate(line.plain)]
+            want_r.append(("\n", []))
+        if rendered != want_r:
+            return False
         if overflow == "fold" and not no_wrap:
             # a word is broken across lines only when it does not fit on a line of its own (with its indentation)
             for wi, word in enumerate(ws):
